@@ -604,7 +604,7 @@ pub fn fonts() -> Vec<Syn> {
         cid: false,
         glyphs: (0..ng as i32).map(|g| glyph(g, true, true)).collect(),
         gsubrs: gsubrs(true),
-        fds: vec![FdSpec { lsubrs: Some(lsubrs(0, true)), vsindex: None, private_extra: vec![] }],
+        fds: vec![FdSpec { lsubrs: Some(lsubrs(0, true)), vsindex: None, private_extra: vec![], fdict_extra: vec![] }],
         fdselect: vec![],
         fdselect_fmt: 0,
         charset: CharsetSpec::IsoAdobe,
@@ -616,8 +616,8 @@ pub fn fonts() -> Vec<Syn> {
         glyphs: (0..ng as i32).map(|g| glyph(g, true, true)).collect(),
         gsubrs: gsubrs(true),
         fds: vec![
-            FdSpec { lsubrs: Some(lsubrs(0, true)), vsindex: None, private_extra: vec![] },
-            FdSpec { lsubrs: Some(lsubrs(6, true)), vsindex: None, private_extra: vec![] },
+            FdSpec { lsubrs: Some(lsubrs(0, true)), vsindex: None, private_extra: vec![], fdict_extra: vec![] },
+            FdSpec { lsubrs: Some(lsubrs(6, true)), vsindex: None, private_extra: vec![], fdict_extra: vec![] },
         ],
         fdselect: (0..ng).map(|g| (g % 2) as u8).collect(),
         fdselect_fmt: 3,
@@ -631,7 +631,7 @@ pub fn fonts() -> Vec<Syn> {
         cid: false,
         glyphs,
         gsubrs: vec![],
-        fds: vec![FdSpec { lsubrs: None, vsindex: None, private_extra: vec![] }],
+        fds: vec![FdSpec { lsubrs: None, vsindex: None, private_extra: vec![], fdict_extra: vec![] }],
         fdselect: vec![],
         fdselect_fmt: 0,
         charset: CharsetSpec::IsoAdobe,
@@ -644,7 +644,7 @@ pub fn fonts() -> Vec<Syn> {
         cid: false,
         glyphs,
         gsubrs: vec![],
-        fds: vec![FdSpec { lsubrs: None, vsindex: None, private_extra: vec![] }],
+        fds: vec![FdSpec { lsubrs: None, vsindex: None, private_extra: vec![], fdict_extra: vec![] }],
         fdselect: vec![],
         fdselect_fmt: 0,
         charset: CharsetSpec::IsoAdobe,
@@ -656,7 +656,7 @@ pub fn fonts() -> Vec<Syn> {
         cid: false,
         glyphs,
         gsubrs: vec![],
-        fds: vec![FdSpec { lsubrs: None, vsindex: None, private_extra: vec![] }, FdSpec { lsubrs: None, vsindex: None, private_extra: vec![] }],
+        fds: vec![FdSpec { lsubrs: None, vsindex: None, private_extra: vec![], fdict_extra: vec![] }, FdSpec { lsubrs: None, vsindex: None, private_extra: vec![], fdict_extra: vec![] }],
         fdselect: (0..nb).map(|g| (g % 2) as u8).collect(),
         fdselect_fmt: 3,
         charset: CharsetSpec::IsoAdobe,
@@ -677,7 +677,7 @@ pub fn fonts() -> Vec<Syn> {
         cid: false,
         glyphs: deep,
         gsubrs: vec![],
-        fds: vec![FdSpec { lsubrs: None, vsindex: None, private_extra: vec![] }],
+        fds: vec![FdSpec { lsubrs: None, vsindex: None, private_extra: vec![], fdict_extra: vec![] }],
         fdselect: vec![],
         fdselect_fmt: 0,
         charset: CharsetSpec::IsoAdobe,
@@ -693,9 +693,9 @@ pub fn fonts() -> Vec<Syn> {
         glyphs,
         gsubrs: gsubrs_b(false),
         fds: vec![
-            FdSpec { lsubrs: Some(lsubrs_b(0, false)), vsindex: None, private_extra: vec![] },
-            FdSpec { lsubrs: Some(lsubrs_b(6, false)), vsindex: None, private_extra: vec![] },
-            FdSpec { lsubrs: None, vsindex: None, private_extra: vec![] },
+            FdSpec { lsubrs: Some(lsubrs_b(0, false)), vsindex: None, private_extra: vec![], fdict_extra: vec![] },
+            FdSpec { lsubrs: Some(lsubrs_b(6, false)), vsindex: None, private_extra: vec![], fdict_extra: vec![] },
+            FdSpec { lsubrs: None, vsindex: None, private_extra: vec![], fdict_extra: vec![] },
         ],
         fdselect: (0..nbs).map(|g| if g >= first_subr && g < first_subr + SUBR_FAMILIES.len() { (g % 2) as u8 } else { (g % 3) as u8 }).collect(),
         fdselect_fmt: 3,
@@ -708,9 +708,9 @@ pub fn fonts() -> Vec<Syn> {
         glyphs: (0..ng as i32).map(|g| if g % 3 == 2 { glyph(g, false, false) } else { glyph(g, false, true) }).collect(),
         gsubrs: gsubrs(false),
         fds: vec![
-            FdSpec { lsubrs: Some(lsubrs(0, false)), vsindex: None, private_extra: vec![] },
-            FdSpec { lsubrs: Some(lsubrs(6, false)), vsindex: None, private_extra: vec![] },
-            FdSpec { lsubrs: None, vsindex: None, private_extra: vec![] },
+            FdSpec { lsubrs: Some(lsubrs(0, false)), vsindex: None, private_extra: vec![], fdict_extra: vec![] },
+            FdSpec { lsubrs: Some(lsubrs(6, false)), vsindex: None, private_extra: vec![], fdict_extra: vec![] },
+            FdSpec { lsubrs: None, vsindex: None, private_extra: vec![], fdict_extra: vec![] },
         ],
         fdselect: (0..ng).map(|g| (g % 3) as u8).collect(),
         fdselect_fmt: 3,
@@ -725,7 +725,7 @@ pub fn fonts() -> Vec<Syn> {
         cid: false,
         glyphs,
         gsubrs: gsubrs_b(false),
-        fds: vec![FdSpec { lsubrs: Some(lsubrs_b(0, false)), vsindex: None, private_extra: vec![] }],
+        fds: vec![FdSpec { lsubrs: Some(lsubrs_b(0, false)), vsindex: None, private_extra: vec![], fdict_extra: vec![] }],
         fdselect: vec![],
         fdselect_fmt: 0,
         charset: CharsetSpec::Format0((1..nbig as u16).collect()),
